@@ -22,7 +22,9 @@ CHECKS['C01'] = dict(text='On every accepted symbolic path of t_layout (same bou
 CHECKS['C05'] = dict(text='Symbolic execution of function::build / type_definition::build for one impl function over every receiver, 0..3 '
              'parameters of integer/pointer/unresolvable type, every return type incl. unresolvable, every calling-convention value and a '
              'symbolic address over the whole isize range: on accepted paths z3 proves the recorded function has body Address{A} with A the '
-             'declared value, the declared receiver/parameters/return type in order; on rejected paths it proves the declaration was not acceptable.',
+             'declared value, the declared receiver/parameters/return type in order; on rejected paths it proves the declaration was not acceptable.  '
+             'A second template puts one or two address-bound functions next to virtual and inherited functions of the same or another name: every '
+             'declared function must be present exactly once with its own address, and rejection must coincide with a name that is already taken.',
              note='semantic stage only: the emitted wrapper text and its run-time call through the absolute address are not decided (no engine here can execute a call to an integer address); <= 3 parameters',
              design='4/C05')
 CHECKS['C08'] = dict(text='Symbolic execution of enum_definition::build for 1..3 (thorough 4) variants, each explicit value symbolic over the whole isize range, '
